@@ -1,3 +1,5 @@
+import CalmVerif.Props.C01tok
+import CalmVerif.Props.C01typed2
 import CalmVerif.Props.C20
 import CalmVerif.Props.C20typed
 /- C20 audit: axioms and statements of every property theorem -/
@@ -57,3 +59,13 @@ import CalmVerif.Props.C20typed
 #check @CalmVerif.Props.C20typed.parsed_pretty_lines_indented
 #print axioms CalmVerif.Props.C20typed.parsed_pretty_ends_with_one_newline
 #check @CalmVerif.Props.C20typed.parsed_pretty_ends_with_one_newline
+#print axioms CalmVerif.Props.C01tok.token_texts_ok
+#check @CalmVerif.Props.C01tok.token_texts_ok
+#print axioms CalmVerif.Props.C01tok.parsed_pretty_lines_indented'
+#check @CalmVerif.Props.C01tok.parsed_pretty_lines_indented'
+#print axioms CalmVerif.Props.C01tok.parsed_pretty_ends_with_one_newline'
+#check @CalmVerif.Props.C01tok.parsed_pretty_ends_with_one_newline'
+#print axioms CalmVerif.Props.C01typed2.parsed_pretty_lines_indented''
+#check @CalmVerif.Props.C01typed2.parsed_pretty_lines_indented''
+#print axioms CalmVerif.Props.C01typed2.parsed_pretty_ends_with_one_newline''
+#check @CalmVerif.Props.C01typed2.parsed_pretty_ends_with_one_newline''
